@@ -264,7 +264,7 @@ def runList (op : Toks) (l : List E) : String :=
   let fault := answer "1" "FAULT" "-" ""
   let ok (out : String) (l' : List E) := answer "1" out (showL l') ""
   match op with
-  | ["new", _] => ok "ok" []
+  | ["new", _] => ok "ok" LSt.new
   | ["insert", k, v] => match tokInt k, tokInt v with
     | some k, some v => ok "ok" (LSt.insert l ⟨k, 0, v⟩)
     | _, _ => "BAD"
@@ -295,7 +295,7 @@ def runList (op : Toks) (l : List E) : String :=
   | ["filby", q] => match tokInt q with
     | some q => ok (showOptNat (LSt.firstIndexLessBy l (cmpQ q))) l
     | none => "BAD"
-  | ["clear"] => ok "ok" []
+  | ["clear"] => ok "ok" (LSt.clear l)
   | ["isempty"] => ok (toString l.isEmpty) l
   | ["after", h] => match tokNat h with
     | some h => match LSt.indexAfter l h with
